@@ -1,6 +1,13 @@
 pub mod c01;
 pub mod c02;
 pub mod c03;
+pub mod c04;
+pub mod c05;
+pub mod c06;
+pub mod c11;
+pub mod c12;
+pub mod c13;
+pub mod c14;
 
 use crate::run::{Ctx, Gen};
 
@@ -18,5 +25,12 @@ pub fn all() -> Vec<Prop> {
         Prop { id: "C01", gens: c01::gens, run: c01::run, rule: c01::RULE, assumptions: c01::ASSUMPTIONS },
         Prop { id: "C02", gens: c02::gens, run: c02::run, rule: c02::RULE, assumptions: c02::ASSUMPTIONS },
         Prop { id: "C03", gens: c03::gens, run: c03::run, rule: c03::RULE, assumptions: c03::ASSUMPTIONS },
+        Prop { id: "C04", gens: c04::gens, run: c04::run, rule: c04::RULE, assumptions: c04::ASSUMPTIONS },
+        Prop { id: "C05", gens: c05::gens, run: c05::run, rule: c05::RULE, assumptions: c05::ASSUMPTIONS },
+        Prop { id: "C06", gens: c06::gens, run: c06::run, rule: c06::RULE, assumptions: c06::ASSUMPTIONS },
+        Prop { id: "C11", gens: c11::gens, run: c11::run, rule: c11::RULE, assumptions: c11::ASSUMPTIONS },
+        Prop { id: "C12", gens: c12::gens, run: c12::run, rule: c12::RULE, assumptions: c12::ASSUMPTIONS },
+        Prop { id: "C13", gens: c13::gens, run: c13::run, rule: c13::RULE, assumptions: c13::ASSUMPTIONS },
+        Prop { id: "C14", gens: c14::gens, run: c14::run, rule: c14::RULE, assumptions: c14::ASSUMPTIONS },
     ]
 }
